@@ -546,6 +546,9 @@ int scpiLex_SuffixProgramData(lex_state_t * state, scpi_token_t * token) {
             skipChr(state, '-');
             skipDigit(state);
         }
+    } else {
+        /* a lone '/' without unit letters is not a suffix */
+        state->pos = token->ptr;
     }
 
     token->len = state->pos - token->ptr;
